@@ -321,14 +321,33 @@ def history_case(ctx, rng, P):
     f = ctx.write("h.mdl", data)
     nsteps = rng.randint(0, P["steps"])
     steps = []
-    r = identity(ctx, data, f, m, "unedited")
+    loose = rng.random() < 0.2
+    if loose:
+        # a parseable model whose vertex streams are stored in another order with unused bytes between them (C06's layout freedom):
+        # outside the identity clause (the writer packs the streams), inside the edit clause - after an edit of one LOD every LOD,
+        # also the untouched ones, must come back with its geometry and a consistent header
+        m["stream_shuffle_seed"] = rng.getrandbits(30)
+        m["packed_indices"] = True      # (index runs with unused indices between them are written back inconsistently even unedited: out of domain, DESIGN 13)
+        data, info = mdl.build(m)
+        f = ctx.write("h.mdl", data)
+        nsteps = max(1, nsteps)
+        ctx.stats.classes["edit-history-on:streams-shuffled-with-gaps"] += 1
+        r0 = ctx.call("mdl.parse", f, ctx.path("a.dump"), "keep", input_bytes=len(data))
+        if not ctx.check_mon(r0, len(data), residual=False, files=[f]) or not r0.ok:
+            return
+        r = (r0.value["handle"], data)
+    else:
+        r = identity(ctx, data, f, m, "unedited")
     hist_key = digest(data, nsteps, rng.random())
     if not isinstance(r, tuple):
         ctx.case(hist_key, False, ["history:0"])
         return
     h, w = r
-    sections_equal(ctx, data, w, info, "unedited", [f])
-    if not m.get("lodrec_junk"):
+    if not loose:
+        sections_equal(ctx, data, w, info, "unedited", [f])
+    if loose:
+        pass
+    elif not m.get("lodrec_junk"):
         consistency(ctx, w, m, [f], "unedited")      # (an unedited file with stale LOD-record copies is written back with them)
     else:
         ctx.stats.classes["lod-record-offset-copies:stale"] += 1
